@@ -164,6 +164,23 @@ def handle (op : String) (args : List String) : Option String :=
       let row := Samplers.applyShocks Float.ofNat prec lo hi 0.0 parent shocks
       let snapped := Samplers.snapBatch fdist grids [row] 0.0
       pure (fl row ++ " | " ++ joinSp (snapped.map fl))
+  | "smp.bestbatch2" => do
+      -- like smp.bestbatch, but the parent is chosen by the model: history, argsort order of its losses, batch size, drawn position
+      let (prec, lo, hi, grids, order, hist, bs, j, shocks) ← run (do
+        let dims ← nat
+        let prec ← rep flt dims; let lo ← rep flt dims; let hi ← rep flt dims
+        let grids ← rep (list flt) dims
+        let order ← list nat
+        let hist ← list (rep flt dims)
+        let bs ← nat; let j ← nat
+        let shocks ← list (do let i ← nat; let sz ← nat; let pl ← bool; pure ({ idx := i, size := sz, plus := pl } : Samplers.Shock))
+        pure (prec, lo, hi, grids, order, hist, bs, j, shocks)) args
+      match Samplers.bestBatchParent order hist bs j with
+      | none => pure "no-parent"
+      | some parent =>
+        let row := Samplers.applyShocks Float.ofNat prec lo hi 0.0 parent shocks
+        let snapped := Samplers.snapBatch fdist grids [row] 0.0
+        pure (fl row ++ " | " ++ joinSp (snapped.map fl))
   | "loss.compute" => do
       -- kind D E T | weights: -1 or D floats | filters: -1 or n tags | sim (D x E x T) | real (D x T)
       let r ← run (do
